@@ -45,5 +45,5 @@ def run(ctx):
     ls += [l for l in C02.t1_lemmas(ctx.tier, sizes=range(4, 8)) if ".Advance." in l.name or ".AdvanceInto." in l.name]
     # the parser side: in copy mode every string entry carries the buffer flag (asserted on every accepting path), in no-copy
     # mode the exposed document is the same
-    ls += [l for l in lemmas_stage2.p3_lemmas(ctx.tier, ndjson=(0,)) if ".K3" in l.name or ctx.tier != "quick"]
+    ls += [l for l in lemmas_stage2.p3_lemmas(ctx.tier, ndjson=(0,)) if ".K3" in l.name or (ctx.tier != "quick" and ".K2" in l.name)]
     run_lemmas(ctx, ls)
